@@ -261,8 +261,23 @@ def run(case, ctx):
     allocs = {v: tuple(ab) for v, ab in case["allocs"].items()}
     nets = par.build_nets(case["nets"])
     constraints = par.build_constraints(case["endpoints"])
-    allocations = {v: {par_mod.Cores: slice(a, b)}
-                   for v, (a, b) in allocs.items()}
+    # which resource stands for cores is the caller's choice; a quarter of
+    # the cases name their own (and carry a decoy under the default name)
+    form = case["tie"] % 8
+    core_res = par_mod.Cores
+    if form in (1, 5):
+        core_res = "processors" if form == 1 else ("res", "cpu")
+        ctx.hit("own_core_resource")
+        allocations = {v: {core_res: slice(a, b),
+                           par_mod.Cores: slice((a + 5) % 17, (a + 5) % 17 + 1),
+                           par_mod.SDRAM: slice(a, a + 100)}
+                       for v, (a, b) in allocs.items()}
+    else:
+        allocations = {v: {par_mod.Cores: slice(a, b)}
+                       for v, (a, b) in allocs.items()}
+    if form == 2:
+        for r in allocations.values():
+            r[par_mod.SDRAM] = slice(0, 8)
     vr = {v: ({par_mod.Cores: allocs[v][1] - allocs[v][0]}
               if v in allocs else {}) for v in place}
     sc = par.strongly_connected(m)
@@ -281,9 +296,24 @@ def run(case, ctx):
             random.seed(case["tie"] + i)
             del repaired[:]
             try:
-                routes = ner.route(vr, [net], machine, constraints, place,
-                                   allocations, par_mod.Cores,
-                                   radius=case["radius"])
+                if form in (3, 7) and case["radius"] == 20 and \
+                        core_res is par_mod.Cores:
+                    # defaults left out
+                    routes = ner.route(vr, [net], machine, constraints,
+                                       place, allocations)
+                elif form in (4, 5):
+                    routes = ner.route(
+                        vertices_resources=vr, nets=[net], machine=machine,
+                        constraints=constraints, placements=place,
+                        allocations=allocations, core_resource=core_res,
+                        radius=case["radius"])
+                elif form == 6:
+                    routes = ner.route(vr, [net], machine, constraints, place,
+                                       allocations, core_res, case["radius"])
+                else:
+                    routes = ner.route(vr, [net], machine, constraints, place,
+                                       allocations, core_res,
+                                       radius=case["radius"])
             except exc.MachineHasDisconnectedSubregion as e:
                 check(not sc, "failed-on-connected-machine",
                       "MachineHasDisconnectedSubregion (%s) although every "
